@@ -1061,7 +1061,14 @@ def rule_order(check):
             if not hir.is_call(n):
                 continue
             a = hir.call_args(n)
-            if not any("assignations" == (hir.local_of(x) or (0, ""))[1] or (hir.place(x) or "").endswith(".assignments") for x in a):
+            # a hoisting step is handed the accumulator of assignments: by its usual names, as a field of a
+            # struct that groups the accumulators, or simply as the `&mut Vec<Expr>` it is
+            def _is_acc(x):
+                pl_ = hir.place(x, transparent=True) or ""
+                ty_ = (hir.peel(x).get("aty") or hir.peel(x).get("ty") or "")
+                return "assignations" == (hir.local_of(x) or (0, ""))[1] or pl_.endswith(".assignments") or pl_.endswith(".assignations") or (ty_.replace(" ", "").startswith("&mutstd::vec::Vec<swc_ecma_ast::Expr>"))
+
+            if not any(_is_acc(x) for x in a):
                 continue
             hp_ = _hoisted_positions(prog, n)
             for ix_, x in enumerate(a):
